@@ -146,9 +146,14 @@ theorem evalNode_tr (env : Env) (ef : Node → St → Res × St) (hef : CalleeTr
   unfold evalNode
   split
   · split
-    · exact Tr.of_sameExc (sameExc_hitEdge s n) _
+    · split
+      · exact Tr.of_sameExc (sameExc_hitEdge s n) _
+      · exact hef n s
     · exact hef n s
-  · exact hef n s
+  · -- the cells does not exist: a new exception in the caller's frame, nothing rolled back
+    refine ⟨rfl, Nat.le_succ _, [], by simp [St.newExc], by simp, ?_⟩
+    intro e' _
+    exact ⟨Nat.lt_succ_self _, by simp [St.newExc], by simp [St.newExc, chainOf]⟩
 
 theorem drop_of_take_snoc {α} (l a : List α) (x : α) (h : l.take (a.length + 1) = a ++ [x]) :
     l.take a.length = a ∧ l.drop a.length = x :: l.drop (a.length + 1) := by
